@@ -309,7 +309,12 @@ func RunE2E(line string) string {
 	if scen == "unary" {
 		var out []byte
 		in := reqs[0]
-		callErr = e.client.Invoke(ctx, method, &in, &out, grpc.ForceCodec(rawCodec{}))
+		uctx, ucancel := context.WithTimeout(ctx, PromptLimit) // a unary call over local pipes that takes this long hangs
+		callErr = e.client.Invoke(uctx, method, &in, &out, grpc.ForceCodec(rawCodec{}))
+		if uctx.Err() != nil {
+			notPrompt.Store(true)
+		}
+		ucancel()
 		if callErr == nil {
 			cresp = append(cresp, out)
 		}
